@@ -1619,7 +1619,13 @@ class Emitter:
         self.fc.stmt_throws = False
         saved = self.fc.temps; self.fc.temps = []
         if n.get('isConstexpr'):
-            v = _const_value(cond)
+            # if constexpr in an instantiated template: the condition is a ConstantExpr carrying its value; the discarded
+            # branch is not instantiated (clang leaves a NullStmt or nothing)
+            v = cond.get('value') if cond.get('kind') == 'ConstantExpr' else None
+            if v in ('true', 'false', True, False):
+                self.fc.temps = saved
+                taken = then if v in ('true', True) else els
+                return pre + (self.block(taken) if taken is not None else [])
             ce = self.E(cond)
         else:
             ce = self.E(cond)
